@@ -37,10 +37,17 @@ type JobResult struct {
 	Asserts     int
 	AssertsSym  int
 	Stubs       map[string]int
-	Witnesses   []map[string]string
+	Witnesses   []Witness
 	MaxPC       int
 	Truncated   bool
 	Msgs        map[string]int
+}
+
+// Witness is a model of one completed path with what the engine observed on it.
+type Witness struct {
+	Model   map[string]string
+	Reached []string
+	Notes   []string
 }
 
 // Explorer runs jobs on a pool of workers, each with its own solver.
@@ -50,6 +57,9 @@ type Explorer struct {
 	SolverKind string
 	TimeoutMs  int
 	MaxPaths   int // per job
+	MaxWitnesses int // per job
+	Fallbacks  []string
+	FallbackStats map[string]int
 	Stats      smt.Stats
 	statsMu    sync.Mutex
 	Deadline   time.Time
@@ -90,6 +100,7 @@ func (e *Explorer) Run(jobs []*Job) []*JobResult {
 			if err != nil {
 				panic(err)
 			}
+			solver.Fallbacks = e.Fallbacks
 			defer func() {
 				e.statsMu.Lock()
 				e.Stats.Queries += solver.Stats.Queries
@@ -98,6 +109,12 @@ func (e *Explorer) Run(jobs []*Job) []*JobResult {
 				e.Stats.Unknown += solver.Stats.Unknown
 				e.Stats.Errors += solver.Stats.Errors
 				e.Stats.SolverNs += solver.Stats.SolverNs
+				if e.FallbackStats == nil {
+					e.FallbackStats = map[string]int{}
+				}
+				for k, n := range solver.FallbackStats {
+					e.FallbackStats[k] += n
+				}
 				e.statsMu.Unlock()
 				solver.Close()
 			}()
@@ -166,8 +183,13 @@ func (e *Explorer) Run(jobs []*Job) []*JobResult {
 					if res.PCSize > jr.MaxPC {
 						jr.MaxPC = res.PCSize
 					}
-					if res.Witness != nil && len(jr.Witnesses) < 3 {
-						jr.Witnesses = append(jr.Witnesses, res.Witness)
+					if res.Witness != nil && len(jr.Witnesses) < e.MaxWitnesses {
+						var reached []string
+						for k := range res.Reached {
+							reached = append(reached, k)
+						}
+						sort.Strings(reached)
+						jr.Witnesses = append(jr.Witnesses, Witness{Model: res.Witness, Reached: reached, Notes: res.Notes})
 					}
 					for _, f := range res.Forks {
 						stack = append(stack, workItem{it.job, f})
@@ -195,4 +217,30 @@ func (jr *JobResult) Summary() string {
 	}
 	sort.Strings(ks)
 	return fmt.Sprintf("%s[%d]: paths=%d %v viol=%d inconcl=%d", jr.Job.Harness, jr.Job.Shape, jr.Paths, ks, len(jr.Violations), len(jr.Inconcl))
+}
+
+// EvalInt runs a niladic function concretely and returns its integer result.
+func (in *Interp) EvalInt(fn *ssa.Function) (int, error) {
+	ex := newExec(in, Config{MaxSteps: 1_000_000}, nil)
+	ex.concreteOnly = true
+	var out Value
+	host := &HostFunc{Name: "evalint", F: func(th *Thread, args []Value) Value {
+		out = th.call(nil, 0, fn, nil)
+		return nil
+	}}
+	main := ex.newThread("eval")
+	ex.cur = main
+	ex.wg.Add(1)
+	go ex.threadMain(main, host, nil, true)
+	main.wake <- struct{}{}
+	<-ex.done
+	ex.wg.Wait()
+	if ex.outcome != OutOK {
+		return 0, fmt.Errorf("%v: %s", ex.outcome, ex.outMsg)
+	}
+	i, ok := out.(int64)
+	if !ok {
+		return 0, fmt.Errorf("not an int: %T", out)
+	}
+	return int(i), nil
 }
